@@ -7,6 +7,7 @@ EXTENDS PicoProgram, TLC, Json
 
 CONSTANTS Capacity, FixAbsent, FixEqWrite, FixTopLevel, SharedKeys,
           Vals,          \* values a keyed source / the singleton may hold
+          WriteKeys,     \* sources the history may write / remove (subset of Keys \cup {SING})
           MaxOps,        \* depth bound on histories
           MaxRetain,     \* bound on simultaneous retains per node
           Shadow,        \* TRUE: also run a variant design BO as shadow state (see below)
@@ -126,9 +127,9 @@ Lookup(n) ==     \* read the MemoRef returned by the last user call of n
      IN Step([op |-> "lookup", n |-> n], [evs |-> <<>>, res |-> res], db, mon, A!LookupBadA(mon, n, res), res.t = "panic")
 
 Next ==
-  \/ \E k \in Keys \cup {SING}, v \in Vals : SetSrc(k, v)
-  \/ \E k \in Keys \cup {SING} : RemoveSrc(k)
-  \/ \E k \in Keys : MapInsert(k) \/ MapRemove(k)
+  \/ \E k \in WriteKeys, v \in Vals : SetSrc(k, v)
+  \/ \E k \in WriteKeys : RemoveSrc(k)
+  \/ \E k \in WriteKeys \cap Keys : MapInsert(k) \/ MapRemove(k)
   \/ \E n \in Nodes : Call(n) \/ Retain(n) \/ Clear(n) \/ Lookup(n)
   \/ Gc
 
